@@ -21,6 +21,8 @@ from engine import gate
 from engine.api import I, harness, cover
 from engine.lib import Injected
 from harness.C43 import ThreadSource, SEQS, ERR
+import harness.C34 as c34
+from reactivex.scheduler import NewThreadScheduler
 
 BOOM = Injected("downstream")
 SEQS = dict(SEQS)
@@ -36,8 +38,8 @@ class Controlled(EventLoopScheduler):
 class Down:
     """the downstream observer: records (kind, value, thread), flags overlapping deliveries, yields while inside, may raise"""
 
-    def __init__(self, g, fault_at=None):
-        self.g, self.inside, self.overlap, self.log, self.fault_at = g, 0, False, [], fault_at
+    def __init__(self, g, fault_at=None, slow=False):
+        self.g, self.inside, self.overlap, self.log, self.fault_at, self.slow = g, 0, False, [], fault_at, slow
 
     def _enter(self, k, v):
         if self.inside:
@@ -47,7 +49,10 @@ class Down:
         self.log.append((k, v, self.g.me()))
         idx = self.g.me()
         if idx is not None:
-            self.g.yield_point(idx, "downstream")
+            if self.slow and n == 0:
+                gate.GateEvent().wait(1.0)  # a slow consumer: the first delivery takes a second of the controlled clock
+            else:
+                self.g.yield_point(idx, "downstream")
         self.inside -= 1
         if self.fault_at is not None and n == self.fault_at:
             raise BOOM
@@ -69,6 +74,8 @@ def _inst(tier):
             if fault is not None and seq in ("n_c", "n_e") and fault > 0:
                 continue
             out.append({"scen": "observe_on", "seq": seq, "fault": fault, "nt": 1})
+    out.append({"scen": "observe_on_newthread", "seq": "n_n_c", "fault": None, "nt": 2})
+    out.append({"scen": "observe_on_newthread", "seq": "n_e", "fault": None, "nt": 2})
     out.append({"scen": "replay_late_subscriber", "seq": "n_n_c", "fault": None, "nt": 2})
     out.append({"scen": "replay_two_subscribers", "seq": "n_c", "fault": None, "nt": 2})
     # P=2: switch away at p0 and to another thread again at a later p1 (the pair is ordered); the first position is chunked over
@@ -94,16 +101,25 @@ _BASE = {}
 def run_once(inst, preempts):
     seq = SEQS[inst["seq"]]
     scen = inst["scen"]
-    with gate.install(m_so, m_els, m_si, m_ser, m_sad, m_comp, m_obs, m_replay, m_subj):
+    c34.Skew.k = 1
+    with gate.install(m_so, m_els, m_si, m_ser, m_sad, m_comp, m_obs, m_replay, m_subj, *c34.MODS, extra=c34.EXTRA):
         gate.watch(m_so, m_ooo)
         g = gate.Gate()
-        sch = Controlled(thread_factory=gate.gated_thread_factory)
-        downs = [Down(g, inst["fault"])]
+        # target scheduler: one event loop thread, or (newthread) a scheduler that runs every action on a thread of its own
+        sch = NewThreadScheduler() if scen == "observe_on_newthread" else Controlled(thread_factory=gate.gated_thread_factory)
+        downs = [Down(g, inst["fault"], slow=(scen == "observe_on_newthread"))]
         nclients = 1
-        if scen == "observe_on":
+        if scen in ("observe_on", "observe_on_newthread"):
             src = ThreadSource()
             src.pipe(ops.observe_on(sch)).subscribe(downs[0].on_next, downs[0].on_error, downs[0].on_completed)
-            g.spawn(lambda: src.emit(seq))
+            if scen == "observe_on_newthread":
+                def paced():  # half a second between notifications: the next one arrives while the slow consumer is busy
+                    for item in seq:
+                        src.emit([item])
+                        gate.GateEvent().wait(0.5)
+                g.spawn(paced)
+            else:
+                g.spawn(lambda: src.emit(seq))
         else:
             subj = ReplaySubject(scheduler=sch)
 
@@ -182,7 +198,8 @@ ENCODED = ["reactivex/observer/scheduledobserver.py", "reactivex/observer/observ
            "reactivex/subject/replaysubject.py", "reactivex/scheduler/eventloopscheduler.py"]
 BOUNDS = {"quick": "observe_on over a producer thread emitting 1..3 elements then completed / error, downstream raising at delivery 0 / 1 / "
                    "never; ReplaySubject(scheduler=loop) with a subscriber arriving from a second thread while the producer emits, and "
-                   "with one early and one late subscriber; target scheduler: the real EventLoopScheduler with a gated loop thread; "
+                   "with one early and one late subscriber; target scheduler: the real EventLoopScheduler with a gated loop thread, and "
+                   "NewThreadScheduler (every drain step on a thread of its own); "
                    "2 ordered preemptions at coarse yield points (shared writes and calls of scheduledobserver.py / observeonobserver.py "
                    "(/ replaysubject.py), every lock and condition operation anywhere, inside the downstream callbacks)",
           "thorough": "same, instruction-level (fine) yield points"}
